@@ -13,6 +13,15 @@ func newNilValue() reflect.Value {
 	return reflect.New(NilValue.Type()).Elem()
 }
 
+// ownNilValue replaces NilValue itself, handed in as the value to bind (a package table entry written
+// as the documentation of Packages prescribes, say), by a nil value of the binding's own.
+func ownNilValue(value reflect.Value) reflect.Value {
+	if value.CanAddr() && value.Kind() == reflect.Interface && value.Addr().Pointer() == NilValue.Addr().Pointer() {
+		return newNilValue()
+	}
+	return value
+}
+
 // define
 
 // Define defines/sets interface value to symbol in current scope.
@@ -28,6 +37,7 @@ func (e *Env) DefineValue(symbol string, value reflect.Value) error {
 	if strings.Contains(symbol, ".") {
 		return ErrSymbolContainsDot
 	}
+	value = ownNilValue(value)
 	e.rwMutex.Lock()
 	if e.values == nil {
 		e.values = make(map[string]reflect.Value)
@@ -67,6 +77,7 @@ func (e *Env) Set(symbol string, value interface{}) error {
 
 // SetValue reflect value to the scope where symbol is first found.
 func (e *Env) SetValue(symbol string, value reflect.Value) error {
+	value = ownNilValue(value)
 	e.rwMutex.Lock()
 	if _, ok := e.values[symbol]; ok {
 		e.values[symbol] = value
